@@ -527,6 +527,43 @@ func (t *translator) stmts(list []ast.Stmt, ind string) string {
 			}
 		}
 	}
+	// `err = decodeLengthEncodedStrings(reader, parts)` / `err := …` as a statement of its own: both
+	// outcomes continue with the rest of the path
+	if as, ok := head.(*ast.AssignStmt); ok && (as.Tok == token.ASSIGN || as.Tok == token.DEFINE) && len(as.Lhs) == 1 && len(as.Rhs) == 1 {
+		if c, ok := isCall(as.Rhs[0], "", "decodeLengthEncodedStrings"); ok && len(c.Args) == 2 {
+			errId, okId := as.Lhs[0].(*ast.Ident)
+			arr, okArr := c.Args[1].(*ast.Ident)
+			size := 0
+			if okArr {
+				size, okArr = t.arrays[arr.Name]
+			}
+			if okId && okArr {
+				if _, okSlot := t.vars[fmt.Sprintf("%s_0", arr.Name)]; !okSlot {
+					okArr = false
+				}
+			}
+			if !okId || !okArr {
+				return t.fail("decodeLengthEncodedStrings call outside the subset")
+			}
+			if old, exists := t.vars[errId.Name]; as.Tok == token.ASSIGN && (!exists || old != tErr) {
+				return t.fail("decodeLengthEncodedStrings result assigned to something that is not an error variable")
+			} else if as.Tok == token.DEFINE && exists {
+				return t.fail("redeclaration of %s", errId.Name)
+			}
+			t.usesDec = true
+			t.vars[errId.Name] = tErr
+			saved := copyVars(t.vars)
+			bad := fmt.Sprintf("let %s : Bool := true\n%s  %s", leanIdent(errId.Name), ind, t.stmts(rest, ind+"  "))
+			t.vars = copyVars(saved)
+			good := fmt.Sprintf("let %s : Bool := false\n%s  ", leanIdent(errId.Name), ind)
+			for k := 0; k < size; k++ {
+				good += fmt.Sprintf("let %s_%d : Bytes := ps.getD %d []\n%s  ", arr.Name, k, k, ind)
+			}
+			good += t.stmts(rest, ind+"  ")
+			t.vars = saved
+			return fmt.Sprintf("(match dec %d with\n%s| none =>\n%s  %s\n%s| some ps =>\n%s  %s)", size, ind, ind, bad, ind, ind, good)
+		}
+	}
 	switch x := head.(type) {
 	case *ast.IfStmt:
 		if as, ok := x.Init.(*ast.AssignStmt); ok && as.Tok == token.DEFINE && markInit(as) {
@@ -605,7 +642,9 @@ func (t *translator) stmts(list []ast.Stmt, ind string) string {
 				at, okAt := c.Args[0].(*ast.ArrayType)
 				n, okN := litInt(c.Args[1])
 				if okId && okAt && okN && at.Len == nil && exprString(at.Elt) == "string" && n > 0 && n <= 16 {
-					if _, dup := t.vars[id.Name]; dup || t.arrays[id.Name] != 0 {
+					// (t.vars is per path, t.arrays is not: the slots decide whether this path has the array already)
+					_, dupSlot := t.vars[fmt.Sprintf("%s_0", id.Name)]
+					if _, dup := t.vars[id.Name]; dup || dupSlot {
 						return t.fail("redeclaration of %s", id.Name)
 					}
 					if t.arrays == nil {
